@@ -14,7 +14,7 @@ EXPL = ("R07.1 the four NameStyle implementations are read as definitions generi
         "compiler's constant evaluator confirms MAYBE_VAL / HAVE_VAL / LEN against literal expectations. R07.5 every per-style name closure of the macro is style-uniform (no branch on the style it is "
         "asked for); R07.2 (on the proc macro's own "
         "MIR) the generator pairs each style's identifier with the name computed for the same style and interpolates the four "
-        "identifiers in the order of the trait's GAT parameters; R07.4 the macro's style table: each NameStyle arm calls the matching "
+        "identifiers in the order of the trait's GAT parameters; R07.6 the macro's name functions return an un-prefixed name only on paths selected by the item itself (explicit / exact name), never by the container attributes; R07.4 the macro's style table: each NameStyle arm calls the matching "
         "inflector function, snake/kebab prefixes get their separator, an explicit `name` wins over inflection. Not decided (and not "
         "papered over): the string results of Inflector and the composition of prefixes over all type shapes - deciding them needs "
         "running the macro on a corpus, which is a test, not static analysis.")
@@ -329,4 +329,62 @@ def run(ctx):
     # ------------------------------------------------------------------ W07
     res = witness.run_witness()
     witness.report_group(ctx, "W07", res, "concat", "concatenation obligations (every total length 0..=100, beyond threshold, nested)")
+    # ------------------------------------------------------------------ R07.6 the container's prefix is bypassed only on the item's own say-so
+    # the macro's name functions (String result, reading the container attributes' optional prefix) may return a name that never met the
+    # prefix - an explicit `name = ".."` / `name_exact` - but whether they do must depend on the item alone: a bypass that is taken because
+    # of something in the container attributes (its rename_all style, say) drops the prefix for items that should carry it
+    from rules.c12 import controlling_switches
+    n6 = 0
+    for b in F.all_bodies(MAC):
+        if b.kind not in ("Fn", "AssocFn") or not (b.d.get("output") or "").endswith("string::String") or (b.impl and b.impl.get("trait")):
+            continue
+        roots = {}
+        for i in b.live_blocks():
+            for s_ in b.stmts(i):
+                if s_["k"] != "assign":
+                    continue
+                pls = []
+                rv = s_["rv"]
+                if isinstance(rv.get("place"), dict):
+                    pls.append(rv["place"])
+                for k_ in ("op", "a", "b"):
+                    o_ = rv.get(k_)
+                    if isinstance(o_, dict) and (o_.get("copy") or o_.get("move")):
+                        pls.append(o_.get("copy") or o_.get("move"))
+                for pl in pls:
+                    for e in pl.get("p", []):
+                        if e[0] == "f" and e[2] == "prefix" and len(e) > 4 and "Option<" in e[4] and str(e[3]).startswith(MAC + "::"):
+                            roots.setdefault(e[3], set()).add(i)
+        if not roots:
+            continue
+        radt, pblocks = sorted(roots.items())[0]
+        rparams = [j for j in range(1, b.arg_count + 1) if radt in b.locals[j]["ty"]]
+        if not rparams:
+            continue
+        n6 += 1
+        pr = Prov(b)
+        rdefs = [i for i in b.live_blocks() if any(s_["k"] == "assign" and s_["lhs"]["l"] == 0 and not s_["lhs"].get("p") for s_ in b.stmts(i)) or
+                 (b.term(i)["k"] == "call" and (b.term(i).get("dest") or {}).get("l") == 0 and not b.term(i)["dest"].get("p"))]
+        free = b.reachable(0, avoid=list(pblocks)) - set(pblocks)
+        bad = None
+        for rb in rdefs:
+            if rb not in free:
+                continue
+            for i, t, yes, no in controlling_switches(b, rb):
+                if i not in free:
+                    continue
+                o = pr.operand(t["discr"])
+                dep = [x for x in o if x[0] == "arg" and x[1] in rparams]
+                # (a comparison / helper call whose inputs come from the container attributes counts as well)
+                for x in o:
+                    if x[0] == "call":
+                        for a_ in b.term(x[1]).get("args", []):
+                            dep += [y for y in pr.operand(a_) if y[0] == "arg" and y[1] in rparams]
+                if dep:
+                    bad = (rb, i, dep[0])
+        ctx.check(bad is None, "R07.6", fnkey(b) + "#prefix-bypassed-only-on-the-items-own-say-so", loc(b, bad[1] if bad else None),
+                  "a name is returned without ever consulting the container's prefix on a path chosen by the container attributes themselves (%s): items "
+                  "that should carry the prefix lose it whenever that condition holds" % (bad[2],) if bad else "",
+                  "the un-prefixed exits depend on the item only")
+    ctx.floor("R07.6", "macro name functions that read the container prefix", n6, 2)
     return EXPL
